@@ -10,10 +10,17 @@ package main
 //     sample, once more in a brand-new process (Case.Fresh); all answers for one
 //     test program must agree (Group) and agree with the model, which only sees
 //     the run under test (Case.ModelReq).
+// (c) raw-byte-keys: objects whose keys are NOT valid UTF-8 (string literals of the
+//     program text are taken byte for byte: bytes 0x80-0xFF, overlong forms, lone
+//     continuation bytes, truncated sequences, surrogates, U+FFFD itself), in
+//     clusters of keys that are equal up to such bytes, mixed with ASCII and valid
+//     multi-byte keys; oracle: the keys come out in bytewise order.
 
 import (
 	"fmt"
 	"math/rand"
+	"sort"
+	"strconv"
 	"strings"
 )
 
@@ -116,6 +123,210 @@ func c10Build(r *rand.Rand, kvs []c10KV) (prefix string, files []File, how strin
 		doc := "{" + strings.Join(parts, ", ") + "}"
 		return "{ o = $; ", []File{{Name: "in.json", Data: []byte(doc)}}, "document"
 	}
+}
+
+// ---- keys that are not valid UTF-8
+
+// byte sequences that are not valid UTF-8 (each decodes to one or more U+FFFD, width 1,
+// in a rune-wise reading), and a few valid ones that sit next to them in byte order
+var c10BadUnits = []string{
+	"\x80", "\x81", "\xa0", "\xbf", // lone continuation bytes
+	"\xc0", "\xc1", "\xc2", "\xc3", "\xdf", "\xe0", "\xe9", "\xe8", "\xef", "\xf0", "\xf4", // lead bytes with nothing after them
+	"\xf5", "\xf8", "\xfc", "\xfd", "\xfe", "\xff", // bytes that never occur in UTF-8
+	"\xc0\x80", "\xc0\xaf", "\xc1\xbf", "\xe0\x80\x80", "\xe0\x9f\xbf", "\xf0\x80\x80\x80", "\xf0\x8f\xbf\xbf", // overlong forms
+	"\xe6\x97", "\xe6", "\xf0\x9f\x98", "\xf0\x9f", "\xc3\x28", "\xe2\x82", // truncated sequences
+	"\xed\xa0\x80", "\xed\xbf\xbf", "\xf4\x90\x80\x80", "\xf7\xbf\xbf\xbf", // surrogates, beyond U+10FFFF
+	"\x80\x80", "\xbf\x80", "\xff\xff", "\xfe\xff", "\xff\xfe", "\xef\xbf", "\xef\xbb", // pairs
+}
+
+var c10NearUnits = []string{
+	"\xef\xbf\xbd", // U+FFFD itself: what every invalid byte reads as
+	"\xef\xbf\xbe", "\xef\xbf\xbc", "\xef\xbf\xbd\xef\xbf\xbd", "\xc3\xa9", "\xc3\xa8", "\xe6\x97\xa5", "\xf0\x9f\x98\x80", "\xc2\x80", "\xdf\xbf", "\xf4\x8f\xbf\xbf", "~", "\x7f", "",
+}
+
+// c10RawKeys: n distinct keys: clusters of keys that share stem and tail and differ only in
+// an invalid byte sequence (or U+FFFD / a valid neighbour), topped up with ordinary keys.
+func c10RawKeys(r *rand.Rand, n int) []string {
+	seen := map[string]bool{}
+	var keys []string
+	add := func(k string) {
+		if !seen[k] && len(keys) < n && !strings.ContainsAny(k, "\n\"'") {
+			seen[k] = true
+			keys = append(keys, k)
+		}
+	}
+	nord := 0
+	if chance(r, 0.6) {
+		nord = r.Intn(n/2 + 1)
+	}
+	for tries := 0; len(keys) < n-nord && tries < 200; tries++ {
+		stem := pick(r, []string{"", "", "a", "caf", "k", "\xc3\xa9", "\xe6\x97\xa5", "z", "\xff", "ab"})
+		tail := pick(r, []string{"", "", "", "x", "0", "\xc3\xa9", "\xff", " z"})
+		sz := 2 + r.Intn(5)
+		for j := 0; j < sz; j++ {
+			u := pick(r, c10BadUnits)
+			switch r.Intn(8) {
+			case 0:
+				u = pick(r, c10NearUnits)
+			case 1:
+				u = string([]byte{byte(0x80 + r.Intn(0x80))})
+			case 2:
+				u = string([]byte{byte(0x80 + r.Intn(0x80)), byte(0x80 + r.Intn(0x80))})
+			case 3:
+				u = pick(r, c10BadUnits) + pick(r, c10BadUnits)
+			}
+			add(stem + u + tail)
+		}
+	}
+	// other keys that a comparator cleverer than the bytewise one could confuse: equal up to
+	// case, up to a long common prefix, up to numeric value, up to Unicode normalisation, up
+	// to trailing blanks or NULs
+	if nord > 0 && chance(r, 0.6) {
+		cl := pick(r, c10TieClusters)
+		if cl == nil {
+			pre := strings.Repeat(pick(r, []string{"p", "\xc3\xa9", "\xff"}), pick(r, []int{7, 8, 15, 16, 31, 32, 63, 64, 255, 256}))
+			cl = []string{pre, pre + "a", pre + "b", pre + "\xff", pre + "\xfe", pre + "ab"}
+		}
+		for _, j := range r.Perm(len(cl)) {
+			add(cl[j])
+		}
+	}
+	for tries := 0; len(keys) < n && tries < 200; tries++ {
+		add(pick(r, c10KeyPool))
+	}
+	r.Shuffle(len(keys), func(a, b int) { keys[a], keys[b] = keys[b], keys[a] })
+	return keys
+}
+
+var c10TieClusters = [][]string{
+	nil, nil, // a long common prefix (built on the spot)
+	{"key", "Key", "KEY", "kEY", "keY"},
+	{"\xc3\xa9", "\xc3\x89", "e\xcc\x81", "E\xcc\x81", "e"}, // é É e+combining acute
+	{"1", "1.0", "01", "1e0", "+1", "1.", " 1"},
+	{"10", "9", "1e1", "010", "10.0", "0x0a"},
+	{"a", "a ", "a  ", "a\x00", "a\x00\x00", " a"},
+	{"\xef\xbc\xa1", "A", "\xef\xbd\x81", "a", "\xc3\x84", "\xc3\xa4"}, // fullwidth A/a, Ä/ä
+	{"ss", "\xc3\x9f", "SS", "s", "\xc5\xbf"},                          // ß, long s
+	{"", " ", "\x00", "\x00\x00", "\xc2\xa0", "\xe2\x80\x8b"},          // empty, blank, NUL, NBSP, zero-width space
+}
+
+func c10ValidUTF8Key(k string) bool {
+	for _, c := range k {
+		if c == 0xfffd {
+			return false // an invalid byte, or U+FFFD itself: keep it out of documents
+		}
+	}
+	return true
+}
+
+// c10RawBuild: program text up to (not including) the observer that leaves an object with
+// exactly these keys in variable o, and the input document if one is used.
+func c10RawBuild(r *rand.Rand, keys []string) (prefix string, files []File, how string, wantJSON bool) {
+	val := func(i int) string {
+		switch r.Intn(7) {
+		case 0:
+			return mustStrLit("v" + fmt.Sprint(i))
+		case 1:
+			return mustStrLit("caf\xe9" + fmt.Sprint(i)) // a value that is not valid UTF-8 either
+		case 2:
+			// a nested object whose own keys tie in a rune-wise comparison
+			return "{\"\xff\": 1, \"\xfe\": 2, \"\xfd\": [3], \"\xef\xbf\xbd\": 4, a: 5}"
+		case 3:
+			return "[{\"\x80\": 1, \"\xbf\": 2, \"\xc0\": 3}]"
+		default:
+			return fmt.Sprint(i)
+		}
+	}
+	var sb strings.Builder
+	switch r.Intn(5) {
+	case 0:
+		parts := make([]string, len(keys))
+		for i, k := range keys {
+			parts[i] = mustStrLit(k) + ": " + val(i)
+		}
+		return "BEGIN { o = {" + strings.Join(parts, ", ") + "}; ", nil, "literal", false
+	case 1:
+		sb.WriteString("BEGIN { o = {}; ")
+		for i, k := range keys {
+			sb.WriteString("o[" + mustStrLit(k) + "] = " + val(i) + "; ")
+		}
+		return sb.String(), nil, "assignments", false
+	case 2:
+		sb.WriteString("BEGIN { ")
+		for i, k := range keys {
+			if i > 0 && chance(r, 0.25) {
+				sb.WriteString("o[" + mustStrLit(keys[r.Intn(i)]) + "] = " + val(i) + "; ")
+			}
+			sb.WriteString("o[" + mustStrLit(k) + "] = " + val(i) + "; ")
+		}
+		return sb.String(), nil, "auto-created with overwrites", false
+	case 3:
+		// keys assembled at run time from pieces: stem + invalid byte
+		sb.WriteString("BEGIN { o = {}; ")
+		for i, k := range keys {
+			cut := r.Intn(len(k) + 1)
+			sb.WriteString("o[" + mustStrLit(k[:cut]) + " + " + mustStrLit(k[cut:]) + "] = " + val(i) + "; ")
+		}
+		return sb.String(), nil, "concatenated keys", false
+	default:
+		// the valid keys come with the document, the others are added to the root itself
+		// (so that -o serialises them too)
+		var docParts []string
+		sb.WriteString("{ ")
+		for i, k := range keys {
+			if c10ValidUTF8Key(k) && chance(r, 0.8) {
+				docParts = append(docParts, jsonString(k)+": "+fmt.Sprint(i))
+			} else {
+				sb.WriteString("$[" + mustStrLit(k) + "] = " + val(i) + "; ")
+			}
+		}
+		sb.WriteString("o = $; ")
+		doc := "{" + strings.Join(docParts, ", ") + "}"
+		return sb.String(), []File{{Name: "in.json", Data: []byte(doc)}}, "document plus assignments to the root", true
+	}
+}
+
+// c10KeyOrderOracle: the lines between KEYS and END are the keys in bytewise order.
+func c10KeyOrderOracle(keys []string) func(Resp) string {
+	want := append([]string{}, keys...)
+	sort.Strings(want)
+	return func(i Resp) string {
+		if i["class"] != "ok" {
+			return ""
+		}
+		out := string(i.Bytes("out"))
+		a := strings.Index(out, "KEYS\n")
+		b := strings.Index(out, "END-KEYS\n")
+		if a < 0 || b < a {
+			return "the key listing is missing from the output"
+		}
+		got := strings.Split(strings.TrimSuffix(out[a+5:b], "\n"), "\n")
+		if len(got) != len(want) {
+			return fmt.Sprintf("for-in visited %d keys, the object has %d: got %q want %q", len(got), len(want), got, want)
+		}
+		for j := range got {
+			if got[j] != want[j] {
+				return fmt.Sprintf("for-in does not visit the keys in bytewise order: position %d is %q, expected %q (got %q, want %q)", j, got[j], want[j], got, want)
+			}
+		}
+		return ""
+	}
+}
+
+var c10RawObservers = []string{
+	"print o",
+	"print json(o)",
+	"for (k, v in o) print k, v",
+	"printf('%v|%s\\n', o, 'end')",
+	"print [o, o], {w: o}",
+	"s = ''; for (k in o) s = s + k + ','; print s",
+	"n = 0; for (k in o) { n++; if (n == 2) continue; if (n > 4) break; print n, k }",
+	"for (k, v in o) { if (v is object) { for (k2, v2 in v) print k, k2, v2 } }",
+	"first = ''; for (k in o) { first = k; break }\nprint first, o.length()",
+	"t = {}; for (k, v in o) { t[k + '!'] = v }\nprint t; print json(t)",
+	"t = {}; for (k, v in o) { t['p' + k] = k }\nfor (k, v in t) print k, v",
+	"a = []; for (k in o) a.push(k); print a, a.length()",
+	"print o; print o; for (k in o) print k; print json(o)",
 }
 
 // ---- history independence
@@ -252,13 +463,56 @@ func init() {
 	})
 
 	register(Family{
+		Name: "raw-byte-keys", Prop: "C10",
+		Rule: "objects with 2-12 keys of which most are NOT valid UTF-8: string literals of the program text with raw bytes 0x80-0xFF, overlong forms, lone continuation bytes, truncated sequences, surrogates, in clusters sharing stem and tail (keys equal up to such bytes), together with U+FFFD itself, valid 2/3/4-byte neighbours and ASCII keys; built as literal, assignment sequence, auto-created with overwrites, concatenated at run time, or added to the root of a document (then also -o); nested objects with such keys as values. First the keys are listed by for-in (oracle: bytewise order of the keys, Go's sort.Strings), then one observer: print, json(), printf %v, for-in with values / break / continue / nested, copies into new objects, pluck. The identical request five times = one Group (class, out, json), each compared with the model; 1 in 4 groups additionally in a fresh process",
+		Gen: func(r *rand.Rand, tier string, emit func(Case)) {
+			n := tierN(tier, 1200, 12000)
+			for i := 0; i < n; i++ {
+				nk := 2 + r.Intn(11)
+				keys := c10RawKeys(r, nk)
+				prefix, files, how, wantJSON := c10RawBuild(r, keys)
+				obs := pick(r, c10RawObservers)
+				if chance(r, 0.2) {
+					var ks []string
+					for j := 0; j < 1+r.Intn(5); j++ {
+						ks = append(ks, mustStrLit(pick(r, keys)))
+					}
+					ks = append(ks, mustStrLit(pick(r, c10BadUnits)+"?"))
+					r.Shuffle(len(ks), func(a, b int) { ks[a], ks[b] = ks[b], ks[a] })
+					obs = "p = o.pluck(" + strings.Join(ks, ", ") + "); print p; for (k, v in p) print k, v; print json(p)"
+				}
+				prog := prefix + "print 'KEYS'; for (k in o) print k; print 'END-KEYS'; " + obs + " }"
+				req := RunReq(prog, nil, files, wantJSON)
+				fresh := chance(r, 0.25)
+				oracle := c10KeyOrderOracle(keys)
+				quoted := make([]string, len(keys))
+				for j, k := range keys {
+					quoted[j] = strconv.Quote(k)
+				}
+				for rep := 0; rep < 5; rep++ {
+					emit(Case{ID: fmt.Sprintf("%d.%d", i, rep), Req: req, Fields: c10Fields,
+						Meta:  metaProg(strconv.Quote(prog), "program is", "shown Go-quoted: it contains bytes that are not valid UTF-8", "object-from", how, "keys", strings.Join(quoted, " ")),
+						Group: fmt.Sprintf("r%05d", i), GroupFields: c10Fields, Fresh: fresh && rep == 0, Oracle: oracle})
+				}
+			}
+		},
+	})
+
+	register(Family{
 		Name: "json-error-choice", Prop: "C10",
-		Rule: "objects with 2-12 keys of which two to four cannot be serialised for DIFFERENT reasons (a regex member, the object itself, a cyclic array) passed to json(): which member is reported must not depend on map order; the identical request five times = one Group on class, out, line, col and msg (the message is part of the error outcome), the first also in a fresh process; class and out compared with the model",
+		Rule: "objects with 2-12 keys (one third of the objects: keys that are not valid UTF-8, equal up to the invalid bytes) of which two to four cannot be serialised for DIFFERENT reasons (a regex member, the object itself, a cyclic array) passed to json(): which member is reported must not depend on map order; the identical request five times = one Group on class, out, line, col and msg (the message is part of the error outcome), the first also in a fresh process; class and out compared with the model",
 		Gen: func(r *rand.Rand, tier string, emit func(Case)) {
 			n := tierN(tier, 300, 3000)
 			for i := 0; i < n; i++ {
 				perm := r.Perm(len(c10KeyPool))
 				nk := 2 + r.Intn(11)
+				keyAt := func(j int) string { return c10KeyPool[perm[j]] }
+				if i%3 == 2 {
+					// keys that are not valid UTF-8 (they tie in a rune-wise comparison)
+					raw := c10RawKeys(r, nk)
+					nk = len(raw)
+					keyAt = func(j int) string { return raw[j] }
+				}
 				nbad := 2 + r.Intn(3)
 				if nbad > nk {
 					nbad = nk
@@ -276,7 +530,7 @@ func init() {
 					if b, ok := badAt[j]; ok {
 						v = b
 					}
-					sb.WriteString("o[" + mustStrLit(c10KeyPool[perm[j]]) + "] = " + v + "; ")
+					sb.WriteString("o[" + mustStrLit(keyAt(j)) + "] = " + v + "; ")
 				}
 				sb.WriteString("print 'before'; print json(o); print 'after' }")
 				prog := sb.String()
